@@ -124,7 +124,9 @@ class Pen(object):
     def __call__(self, x):
         k = self.kind
         if k == 'ramp':
-            return 10.0 * max(0.0, float(sum(x)) - 1.0)
+            # (the value must not depend on the container the solver hands over: python >= 3.12 sums exact floats with
+            #  compensation but numpy scalars naively, a last-bit difference at three or more entries)
+            return 10.0 * max(0.0, float(sum([float(v) for v in x])) - 1.0)
         if k == 'const':
             return 5.0
         return float(self._p(x))
